@@ -2,6 +2,7 @@ import Ptn.C12.Model
 import Ptn.C12.Lemmas
 import Mathlib.LinearAlgebra.Matrix.Rank
 import Ptn.C01.Cut
+import Ptn.C01.Fill
 /-! Property theorems for C12 (bond dimensions of TTNOs built from Hamiltonians).  Only property
 theorems and non-vacuity examples live here.
 
@@ -112,6 +113,24 @@ theorem cover_ge_rank {F : Type*} [Field F] {ι κ : Type*} [Fintype ι] [Fintyp
   calc (L * R).rank ≤ L.rank := Matrix.rank_mul_le_left L R
     _ ≤ Fintype.card (↥Cu ⊕ ↥Cv) := Matrix.rank_le_card_width L
     _ = Cu.card + Cv.card := by simp
+/-- The TTNO actually built (`from_state_diagram`) from a single-term Hamiltonian exists and has bond
+    dimension one on every edge: bond dimensions of the filled tensors are the vertex counts
+    (`Ptn.C01.fill_bonds`). -/
+theorem single_term_ttno_bond_one (dimOf : String → Nat) (t : RTree) (tm : Term) :
+    ∃ T, fillTTNO dimOf (singleTerm t tm) = some T ∧ T.bondsBelow = t.edgesBelow.map (·, 1) := by
+  obtain ⟨T, hT⟩ := fill_defined_aux dimOf (singleTerm t tm) true (singleAt_WF _ _ _ true t)
+    (singleAt_populated _ _ _ true t)
+  refine ⟨T, hT, ?_⟩
+  rw [fill_bonds dimOf _ true T hT]
+  exact single_term_bond_one t tm
+
+/-- For any diagram the bond dimensions of the filled TTNO are the numbers of vertices per edge: every
+    statement about vertex counts (`base_bond_eq_terms`, `bond_eq_cover`) is a statement about the
+    tensors' shapes. -/
+theorem ttno_bonds_eq_vertex_counts (dimOf : String → Nat) (d : SD) (T : TTNO)
+    (h : fillTTNO dimOf d = some T) : T.bondsBelow = bondDims d :=
+  fill_bonds dimOf d true T h
+
 /-! ### Non-vacuity -/
 
 -- a cover as required by `bond_eq_cover` / `cover_ge_rank`: the row of a 1 × 2 matrix
